@@ -36,6 +36,7 @@ def gen_spec(rng, n_m=4, n_p=3, n_v=3, pkg="vpk", p_hidden=0.15, p_explicit=0.2,
         n["tupconst"] = [rng.randint(1, 5), rng.randint(1, 5)] if rng.random() < 0.35 else None
         n["sset"] = rng.sample(["0", "1", "2", "3", "4", "aa", "bcd", "e"], 4) if rng.random() < 0.35 else None
         n["nested"] = rng.randint(1, 4) if rng.random() < 0.35 else None
+        n["pair"] = rng.sample(range(101, 140), 2) if rng.random() < 0.5 else None
         n["explicit"] = None
         n["hidden"] = None
         n["refs"] = []
@@ -65,9 +66,10 @@ def node(spec, name):
     return next(n for n in spec["nodes"] if n["name"] == name)
 
 
-def render_module(spec, mod, order_rng=None):
+def render_module(spec, mod, order_rng=None, plain=False):
     other = "b" if mod == "a" else "a"
-    out = ["import builtins", "from twosigma.memento import memento_function", "from . import %s" % other, ""]
+    imp = "def memento_function(**kw):\n    return lambda f: f" if plain else "from twosigma.memento import memento_function"
+    out = ["import builtins", imp, "from . import %s" % other, ""]
     mine = [n for n in spec["nodes"] if n["module"] == mod]
     if order_rng is not None:
         mine = list(mine)
@@ -123,6 +125,8 @@ def render_module(spec, mod, order_rng=None):
             out.append("    r += (%d, %d)[x %% 2]" % tuple(n["tupconst"]))
         if n["nested"] is not None:
             out.append("    r += sum(v * %d for v in (1, 2))" % n["nested"])
+        if n.get("pair") is not None:
+            out.append("    r += x * %d + %d" % tuple(n["pair"]))
         if n.get("sset") is not None:
             out.append("    if str(x %% 5) in {%s}:" % ", ".join(repr(v) for v in n["sset"]))
             out.append("        r += 17")
@@ -151,18 +155,18 @@ def render_module(spec, mod, order_rng=None):
     return "\n".join(out) + "\n"
 
 
-def render(spec, root, order_rng=None):
+def render(spec, root, order_rng=None, plain=False):
     d = os.path.join(root, spec["pkg"])
     os.makedirs(d, exist_ok=True)
     with open(os.path.join(d, "__init__.py"), "w") as f:
         f.write("")
     for mod in "ab":
         with open(os.path.join(d, mod + ".py"), "w") as f:
-            f.write(render_module(spec, mod, order_rng))
+            f.write(render_module(spec, mod, order_rng, plain))
     return d
 
 
-EDITS = ["sset", "const", "default", "kwdefault", "setconst", "tupconst", "nested", "var", "explicit", "add-ref", "drop-ref", "helper-const", "add-default"]
+EDITS = ["swap-pair", "swap-pair", "sset", "const", "default", "kwdefault", "setconst", "tupconst", "nested", "var", "explicit", "add-ref", "drop-ref", "helper-const", "add-default"]
 
 
 def edit(rng, spec):
@@ -187,6 +191,9 @@ def edit(rng, spec):
         if kind == "setconst" and n["setconst"] is not None:
             n["setconst"] = sorted(set(n["setconst"]) ^ {rng.randint(1, 9)}) or [1]
             return s, "set constant of %s" % n["name"]
+        if kind == "swap-pair" and n.get("pair") is not None:
+            n["pair"] = n["pair"][::-1]
+            return s, "swapped constants of %s" % n["name"]
         if kind == "sset" and n.get("sset") is not None:
             n["sset"] = sorted(set(n["sset"]) ^ {rng.choice(["0", "1", "2", "3", "4"])}) or ["0"]
             return s, "string set constant of %s" % n["name"]
@@ -300,3 +307,105 @@ def run_edition(root, spec, store, calls=(), version_order=(), deps_of=(), hashs
 
 def mnames(spec):
     return [n["name"] for n in spec["nodes"] if n["kind"] == "m"]
+
+
+# ---- plain (un-memoized, undecorated) execution: the reference ------------------------------
+
+PLAIN = r'''
+import importlib, json, sys
+cfg = json.loads(sys.argv[1])
+sys.path.insert(0, cfg["root"])
+mods = {m: importlib.import_module(cfg["pkg"] + "." + m) for m in "ab"}
+out = []
+for name, x in cfg["calls"]:
+    f = getattr(mods["a"], name) if hasattr(mods["a"], name) else getattr(mods["b"], name)
+    try:
+        out.append(["val", f(x)])
+    except Exception as e:
+        out.append(["exc", type(e).__name__])
+print("@@RESULT@@" + json.dumps(out))
+'''
+
+
+def run_plain(root, spec, calls, timeout=60):
+    """root must hold a plain rendering of the spec"""
+    cfg = {"root": root, "pkg": spec["pkg"], "calls": list(calls)}
+    env = dict(os.environ, PYTHONDONTWRITEBYTECODE="1")
+    p = subprocess.run([C.PY, "-c", PLAIN, json.dumps(cfg)], capture_output=True, text=True, timeout=timeout, env=env)
+    for line in p.stdout.splitlines():
+        if line.startswith("@@RESULT@@"):
+            return json.loads(line[len("@@RESULT@@"):])
+    raise RuntimeError("plain run failed: %s" % (p.stderr[-800:] or p.stdout[-400:]))
+
+
+# ---- a whole history inside one interpreter: editions delivered by reload / setattr ----------
+
+INPROC = r'''
+import builtins, importlib, json, os, sys
+cfg = json.loads(sys.argv[1])
+sys.path.insert(0, cfg["repo"]); sys.path.insert(0, cfg["root"])
+os.environ["HOME"] = cfg["root"]
+import logging; logging.disable(logging.CRITICAL)
+import warnings; warnings.filterwarnings("ignore")
+import twosigma.memento as m
+from twosigma.memento.storage_filesystem import FilesystemStorageBackend
+from twosigma.memento.storage_memory import MemoryStorageBackend
+storage = MemoryStorageBackend() if cfg["store"] is None else FilesystemStorageBackend(path=cfg["store"])
+m.Environment.set(m.Environment(name="e", base_dir=cfg["root"], repos=[m.ConfigurationRepository(name="r", clusters={cfg["cluster"]: m.FunctionCluster(name=cfg["cluster"], storage=storage)})]))
+events = []
+builtins._vt = events.append
+pkgdir = os.path.join(cfg["root"], cfg["pkg"])
+mods = {}
+def fn(name):
+    for mod in "ab":
+        f = getattr(mods[mod], name, None)
+        if f is not None and getattr(f, "__module__", "").endswith("." + mod):
+            return f
+out = []
+for k, ed in enumerate(cfg["editions"]):
+    for mod, src in ed["files"].items():
+        with open(os.path.join(pkgdir, mod + ".py"), "w") as f:
+            f.write(src)
+    importlib.invalidate_caches()
+    if k == 0:
+        for mod in "ab":
+            mods[mod] = importlib.import_module(cfg["pkg"] + "." + mod)
+    else:
+        for mod in sorted(ed["files"]):
+            if ed.get("how") == "exec":
+                import linecache
+                fname = os.path.join(pkgdir, mod + ".py")
+                linecache.checkcache(fname)
+                exec(compile(ed["files"][mod], fname, "exec"), mods[mod].__dict__)
+            else:
+                importlib.reload(mods[mod])
+        for mod, name, value in ed.get("setattrs", []):
+            setattr(mods[mod], name, value)
+    res = {"versions": {}, "calls": []}
+    for name in ed.get("version_order", []):
+        try:
+            res["versions"][name] = fn(name).version()
+        except Exception as e:
+            res["versions"][name] = "ERR:" + type(e).__name__ + ":" + str(e)[:80]
+    for name, x in ed["calls"]:
+        del events[:]
+        try:
+            r = ["val", fn(name)(x)]
+        except Exception as e:
+            r = ["exc", type(e).__name__]
+        res["calls"].append({"fn": name, "x": x, "result": r, "execs": [e[1] for e in events if e[0] == "exec"]})
+    out.append(res)
+print("@@RESULT@@" + json.dumps(out))
+'''
+
+
+def run_inproc(root, pkg, editions, store=None, hashseed="0", timeout=180):
+    os.makedirs(os.path.join(root, pkg), exist_ok=True)
+    open(os.path.join(root, pkg, "__init__.py"), "w").close()
+    cfg = {"repo": C.REPO, "root": root, "pkg": pkg, "store": store, "cluster": CL, "editions": editions}
+    env = dict(os.environ, PYTHONHASHSEED=str(hashseed), PYTHONDONTWRITEBYTECODE="1")
+    p = subprocess.run([C.PY, "-c", INPROC, json.dumps(cfg)], capture_output=True, text=True, timeout=timeout, env=env)
+    for line in p.stdout.splitlines():
+        if line.startswith("@@RESULT@@"):
+            return json.loads(line[len("@@RESULT@@"):])
+    raise RuntimeError("in-process run failed: %s" % (p.stderr[-800:] or p.stdout[-400:]))
